@@ -52,18 +52,22 @@ pub fn diff_results(a: &SearchResult, b: &SearchResult) -> Option<String> {
   None
 }
 
-/// scores set to 0 (also inside cursors: dropped), inner hits optionally removed
-fn normalize(r: &SearchResult, drop_inner: bool) -> SearchResult {
-  fn z(h: &Hit, drop_inner: bool) -> Hit {
+/// scores set to 0, cursors reduced to presence
+fn normalize(r: &SearchResult) -> SearchResult {
+  fn z(h: &Hit) -> Hit {
     let mut h = h.clone();
     h.score = 0.0;
-    h.inner_hits = if drop_inner { None } else { h.inner_hits.as_ref().map(|v| v.iter().map(|x| z(x, drop_inner)).collect()) };
+    h.inner_hits = h.inner_hits.as_ref().map(|v| v.iter().map(z).collect());
     h
   }
   let mut r = r.clone();
-  r.hits = r.hits.iter().map(|h| z(h, drop_inner)).collect();
+  r.hits = r.hits.iter().map(z).collect();
   r.next_cursor = r.next_cursor.as_ref().map(|_| "present".to_string());
   r
+}
+
+fn all_zero(r: &SearchResult) -> bool {
+  r.hits.iter().all(|h| h.score == 0.0 && h.inner_hits.as_ref().map(|v| v.iter().all(|i| i.score == 0.0)).unwrap_or(true))
 }
 
 fn explanations_ok(hits: &[Hit]) -> Option<String> {
@@ -205,13 +209,6 @@ impl Prop for C20 {
         if let Some(d) = diff_results(&base, &v) {
           let obs = json!({"explain": explain, "profile": profile, "diff": d, "flags_off": hit_ids(&base.hits), "flags_on": hit_ids(&v.hits),
             "total_groups_off": base.total_groups, "total_groups_on": v.total_groups, "next_off": base.next_cursor.is_some(), "next_on": v.next_cursor.is_some()});
-          // Without explain a sort that ignores _score (and a query without custom scoring) never
-          // computes scores: every hit carries 0, rescoring combines with 0, an inner sort by
-          // _score degenerates to document order.  Comparisons below are then made modulo scores
-          // (and modulo inner hits when the inner sort uses _score).
-          let loosen = explain && !scores_computed(&req);
-          let drop_inner = loosen && plan_json(&req["collapse"]["inner_hits"]["sort"]).as_array().map(|a| a.iter().any(|p| p["f"] == "score")).unwrap_or(false) && !req["collapse"]["inner_hits"].is_null();
-          let norm = |t: &SearchResult| if loosen { normalize(t, drop_inner) } else { t.clone() };
           if explain && !fast && (has_resc || has_coll) {
             // deep-fetch twin: flags off, candidate_size covering all matches
             let deep = deep_cache.get_or_insert_with(|| {
@@ -219,14 +216,19 @@ impl Prop for C20 {
               t["candidate_size"] = json!(ALL);
               run(&built.reader, &t).ok()
             });
-            let differs_from_base = deep.as_ref().map(|t| diff_results(&norm(t), &norm(&base)).is_some()).unwrap_or(false);
-            if differs_from_base && deep.as_ref().map(|t| diff_results(&norm(t), &norm(&v)).is_none()).unwrap_or(false) {
-              s.fail("explain.fetch-depth", "with explain and a sort other than plain _score desc every match of a segment is ranked and reaches rescoring/collapse, without explain only max(limit,candidate_size)+1: hits, total_groups or next_cursor differ", case, obs);
+            let differs_from_base = deep.as_ref().map(|t| diff_results(t, &base).is_some()).unwrap_or(false);
+            if differs_from_base && deep.as_ref().map(|t| diff_results(t, &v).is_none()).unwrap_or(false) {
+              s.fail("explain.fetch-depth", "with explain and a sort other than plain _score desc every match of a segment is ranked and reaches rescoring/collapse, without explain only max(limit,candidate_size,window_size)+1: hits, inner hits, total_groups or next_cursor differ", case, obs);
               continue;
             }
           }
-          if loosen && diff_results(&norm(&base), &norm(&v)).is_none() {
-            s.fail("explain.scores-only-with-explain", "under a sort without _score (and a query without custom scoring) scores are not computed without explain (hits carry 0, rescoring combines with 0, inner sort by _score is document order) and are computed with explain", case, obs);
+          // recurrence of the defect repaired by /repo 8218789 / a5f1a65 (status fixed: a violation
+          // again): sort without _score, query without custom scoring, every hit of the flags-off
+          // response carries score 0 and the responses agree modulo scores
+          if explain && legacy_score_mode_off(&req) && all_zero(&base) && base.total_hits_estimate > 0 && !base.hits.is_empty()
+            && diff_results(&normalize(&base), &normalize(&v)).is_none()
+          {
+            s.fail("explain.scores-only-with-explain", "under a sort without _score (and a query without custom scoring) hit scores are 0 without explain and the real scores with explain", case, obs);
             continue;
           }
           s.fail(if explain { "explain.result-changed" } else { "profile.result-changed" }, "response (ignoring explanation/profile) differs from the flags-off response", case, obs);
